@@ -1,6 +1,7 @@
 package c13
 
 import (
+	"regexp"
 	"fmt"
 	"strings"
 	"testing"
@@ -10,18 +11,18 @@ import (
 	"verif/ev"
 )
 
+var reDryDiff = regexp.MustCompile("(?s)before: journal=\\[(.*?)\\] revisions=\\[\\] revtable=false schema=\\[(.*?)\\]\n after:  journal=\\[(.*?)\\] revisions=\\[\\] revtable=true schema=\\[(.*?)\\]\n")
+
 var known = ev.Matcher[Case]{
 	// only the creation of the empty revision table, on a database that had none, by a dry run
 	"dry-run-creates-revision-table": func(c Case, err error) bool {
-		m := err.Error()
-		return c.DryRun && !c.Schema && strings.Contains(m, "--dry-run` changed the database") &&
-			strings.Contains(m, "before: journal=[] revisions=[] revtable=false schema=[]") &&
-			strings.Contains(m, "after:  journal=[] revisions=[] revtable=true schema=[]")
+		m := reDryDiff.FindStringSubmatch(err.Error())
+		return c.DryRun && !c.Schema && strings.Contains(err.Error(), "--dry-run` changed the database") && m != nil && m[1] == m[3] && m[2] == m[4]
 	},
 }
 
 const rule = "real CLI on SQLite files. migrate apply: directories of 1-3 files x 1-3 statements (journal INSERTs; the first statement creates the journal table) x a failing statement at every (file, statement) position or none, failing either at once (missing table) or on a foreign-key violation with enforcement on (_fk=1: immediate without a transaction, found at commit inside one) " +
-	"x tx-mode {file, all, none} x per-file atlas:txmode directives x optional count argument; directories with 1-3 checkpoint files (a fresh database starts at the last one) with a failure at every position from there on; every configuration also with --dry-run. " +
+	"x tx-mode {file, all, none} x per-file atlas:txmode directives x optional count argument; directories with 1-3 checkpoint files (a fresh database starts at the last one) with a failure at every position from there on; every configuration also with --dry-run, and --dry-run --baseline <version> on a database that already holds a table. " +
 	"schema apply: populated tables and desired schemas whose plan succeeds on an early statement and fails on the data later (unique index over duplicates, NOT NULL over NULLs), with --auto-approve and with --dry-run. " +
 	"Oracle (independent connection; journal rows in order, revision rows version/applied/total/error, schema objects; timestamps and hashes masked): file mode = state after the last completely applied file; all mode = state before the command; " +
 	"none mode = exactly the successful prefix recorded with the error; after fixing the file and re-hashing the re-run reaches the state of a failure-free run (also with two failing statements in one file, repaired one at a time: the re-run in between stops at the second one exactly as a first run would); schema apply failure and every --dry-run leave the full data dump unchanged. " +
@@ -129,6 +130,16 @@ func enumerate(thorough bool, f func(Case) bool) {
 			}
 		}
 	}
+	// a dry run with --baseline on a database that already holds a table: nothing may be recorded
+	for _, sh := range [][]int{{2, 2}, {1, 3, 1}} {
+		for _, mode := range []string{"file", "all", "none"} {
+			for b := 1; b <= len(sh); b++ {
+				if !f(Case{Shape: sh, FailF: -1, Mode: mode, DryRun: true, Baseline: b}) {
+					return
+				}
+			}
+		}
+	}
 	for v := 0; v < 3; v++ {
 		for _, dry := range []bool{false, true} {
 			if !f(Case{Schema: true, Variant: v, DryRun: dry, FailF: -1}) {
@@ -159,6 +170,9 @@ func genCase(t *rapid.T) Case {
 	c.Count = rapid.SampledFrom([]int{0, 0, 1, 2}).Draw(t, "count")
 	c.DryRun = rapid.IntRange(0, 4).Draw(t, "dry") == 0
 	c.CRLF = rapid.IntRange(0, 3).Draw(t, "crlf") == 0
+	if c.DryRun && rapid.Bool().Draw(t, "withbaseline") {
+		c.Baseline = rapid.IntRange(1, n).Draw(t, "baseline")
+	}
 	if c.FailF >= 0 && c.FailJ+1 < c.Shape[c.FailF] && c.Count == 0 && !c.DryRun && rapid.IntRange(0, 2).Draw(t, "second") == 0 {
 		c.Fail2J = rapid.IntRange(c.FailJ+1, c.Shape[c.FailF]-1).Draw(t, "fj2")
 	}
@@ -191,7 +205,7 @@ func TestCheck(t *testing.T) {
 		}
 		col.Class(cls)
 		if out.Fired || c.DryRun || c.Schema {
-			col.NonTrivial(fmt.Sprintf("%v|%d.%d|%s|%v|%d|%v|%v.%d|%d|%v|%d", c.Shape, c.FailF, c.FailJ, c.Mode, c.Directives, c.Count, c.DryRun, c.Schema, c.Variant, c.FailKind, c.Ckpt, c.Fail2J) + fmt.Sprint(c.CRLF))
+			col.NonTrivial(fmt.Sprintf("%v|%d.%d|%s|%v|%d|%v|%v.%d|%d|%v|%d", c.Shape, c.FailF, c.FailJ, c.Mode, c.Directives, c.Count, c.DryRun, c.Schema, c.Variant, c.FailKind, c.Ckpt, c.Fail2J) + fmt.Sprint(c.CRLF, c.Baseline))
 		}
 		col.Sample(cls, c)
 		return err
